@@ -2257,7 +2257,7 @@ class HDKey(Key):
             network = self.network.name
         if not self.is_private:
             raise BKeyError("Need a private key to create child private key")
-        if hardened:
+        if hardened or index >= 0x80000000:
             index |= 0x80000000
             data = b'\0' + self.private_byte + index.to_bytes(4, 'big')
         else:
